@@ -1,0 +1,50 @@
+//go:build verif
+
+package ec
+
+// Machine-checked contracts (govc, see /verif/DESIGN.md). Comment-only file.
+
+// ---- C22: the node order of an EC part lists every node index exactly once.
+// The iterator body is the closure NodeSequenceForPart$1; partIdx, totalParts and nodes are
+// its captured (never re-assigned) variables. `seen` is ghost state updated by every
+// yield(i): the call demands 0 <= i < nodes and !seen(i) ("at most once, in range") and
+// sets seen(i). If no yield asked to stop, every index below nodes has been seen.
+// totalParts is symbolic in the code; because `mod totalParts` is non-linear for the
+// solvers the proof is split into one complete case per value 1..32 (the property's own
+// range: "for any number of parts"; EC rules allow at most 32 parts), unbounded in nodes
+// and partIdx.
+
+//@ ghost field seen(i int) bool
+//@ ghost field stopped(x int) bool
+//@ ghost field yielded(x int) int
+//@ ghost field firstIdx(x int) int
+
+//@ callrule yield_each_node_once in NodeSequenceForPart$1
+//@   property C22
+//@   callee dynamic:param.yield
+//@   assigns seen, stopped, yielded, firstIdx
+//@   requires [index_in_range] 0 <= a0 && a0 < nodes
+//@   requires [not_yielded_before] !seen(a0)
+//@   defines seen(a0) && (forall j int :: j != a0 ==> seen(j) == old(seen(j)))
+//@   defines stopped(0) == (old(stopped(0)) || !result)
+//@   defines yielded(0) == old(yielded(0)) + 1
+//@   defines firstIdx(0) == ite(old(yielded(0)) == 0, a0, old(firstIdx(0)))
+
+//@ func NodeSequenceForPart$1
+//@   property C22
+//@   mode int
+//@   opt instances=totalParts:1..32
+//@   opt instances_quick=1..8
+//@   opt solver=cvc5
+//@   requires 0 <= partIdx && partIdx < totalParts && 0 <= nodes && nodes <= 1073741824
+//@   requires !stopped(0) && yielded(0) == 0 && (forall j int :: !seen(j))
+//@   loop 1 invariant 0 <= shift && shift <= totalParts && !stopped(0)
+//@   loop 1 invariant forall j int :: 0 <= j && j < nodes ==> (seen(j) <==> (j - partIdx) % totalParts < shift)
+//@   loop 1 invariant yielded(0) >= 0 && (partIdx < nodes && yielded(0) > 0 ==> firstIdx(0) == partIdx) && (partIdx < nodes ==> (yielded(0) == 0 <==> shift == 0))
+//@   loop 2 invariant 0 <= shift && shift < totalParts && !stopped(0)
+//@   loop 2 invariant (partIdx + shift) % totalParts <= i && (i - partIdx - shift) % totalParts == 0
+//@   loop 2 invariant forall j int :: 0 <= j && j < nodes ==> (seen(j) <==> ((j - partIdx) % totalParts < shift || ((j - partIdx) % totalParts == shift && j < i)))
+//@   loop 2 invariant yielded(0) >= 0 && (partIdx < nodes && yielded(0) > 0 ==> firstIdx(0) == partIdx) && (partIdx < nodes ==> (yielded(0) == 0 <==> (shift == 0 && i == partIdx)))
+//@   loop 2 decreases nodes - i + totalParts
+//@   ensures [every_node_once] !stopped(0) ==> (forall j int :: 0 <= j && j < nodes ==> seen(j))
+//@   ensures [part_starts_at_its_own_node] partIdx < nodes ==> yielded(0) > 0 && firstIdx(0) == partIdx
